@@ -270,7 +270,7 @@ def load_contract(modname, target):
     raise KeyError(target)
 
 
-def search(modname, target, vname, seed, budget, tier, pid=None):
+def search(modname, target, vname, seed, budget, tier, pid=None, deadline=None):
     con, mod = load_contract(modname, target)
     t0 = time.time()
     out = dict(target=target, variant=vname, evaluations=0, accepted=0, skipped=0, violations=[], bound=None,
@@ -290,7 +290,7 @@ def search(modname, target, vname, seed, budget, tier, pid=None):
     for recipe in gen(rng, tier, vname):
         case = build(recipe)
         case['recipe'] = recipe
-        if out['evaluations'] >= budget or time.time() - t0 > (120 if tier == 'quick' else 900):
+        if out['evaluations'] >= budget or time.time() - t0 > (deadline or (120 if tier == 'quick' else 900)):
             break
         out['evaluations'] += 1
         try:
@@ -350,7 +350,8 @@ def main(argv):
         modname, target = argv[1], argv[2]
         opts = dict(zip(argv[3::2], argv[4::2]))
         out = search(modname, target, opts.get('--variant', ''), int(opts.get('--seed', '0')),
-                     int(opts.get('--budget', '20000')), opts.get('--tier', 'quick'), opts.get('--prop'))
+                     int(opts.get('--budget', '20000')), opts.get('--tier', 'quick'), opts.get('--prop'),
+                     float(opts['--deadline']) if opts.get('--deadline') else None)
         print(json.dumps(out))
         return 0
     if argv[0] == 'replay':
